@@ -45,6 +45,7 @@ import (
 	"sync"
 	"testing"
 	"testing/synctest"
+	"time"
 
 	"golang.org/x/net/http2"
 	"google.golang.org/grpc"
@@ -392,6 +393,20 @@ func c25Run(t *testing.T, mcs int, evs []string, verbose bool) (res c25Res) {
 			return false
 		}
 
+		// queued: an RPC the transport had to admit whose handler has not started
+		// (it waits for the per-connection handler quota).
+		queued := func() bool {
+			started := map[int]bool{}
+			for _, k := range rc.snap().starts {
+				started[k] = true
+			}
+			for k := 1; k <= sent; k++ {
+				if accepted[k] && !started[k] {
+					return true
+				}
+			}
+			return false
+		}
 		apply := func(e string) bool {
 			switch {
 			case e == "arrive":
@@ -426,7 +441,10 @@ func c25Run(t *testing.T, mcs int, evs []string, verbose bool) (res c25Res) {
 				delete(open, uint32(2*k-1))
 				peer.WriteRST(uint32(2*k-1), http2.ErrCodeCancel)
 			case e == "gs":
-				if gsCalled {
+				if gsCalled || queued() {
+					// queued: the connection's reader is parked in the handler quota
+					// inside operateHeaders (holding maxStreamMu); the GOAWAY writer
+					// would block on that mutex, which a bubble cannot wait out.
 					return false
 				}
 				if stopCalled {
@@ -510,6 +528,9 @@ func c25Run(t *testing.T, mcs int, evs []string, verbose bool) (res c25Res) {
 			settle()
 			check("drain")
 		}
+		// the server keeps a drained connection for up to 1 s waiting for the
+		// client to close it first: let that (virtual) second pass
+		time.Sleep(2 * time.Second)
 		synctest.Wait()
 		settle()
 		check("drain")
@@ -693,7 +714,7 @@ func TestVerif_C25_ServerStop(t *testing.T) {
 	}
 
 	crash := c25NewCrash(r)
-	D := r.Pick(5, 6)
+	D := r.Pick(7, 12)
 	r.Set(c25P, "depth_bound", D)
 	r.Set(c25P, "max_alphabet", len(c25Events))
 	nE := len(c25Events)
